@@ -15,6 +15,7 @@
     fresh ObjectIds.
  R6 token validity (shared with C09): name, key, string and real emission of every object
     serialiser, plus every `/{name}` format site that feeds a content or dictionary buffer.
+ R7 the /Encrypt dictionary is never stored in an object stream and no individually encrypted object is (rule C05 R3).
 Not decided: an independent checker's verdict; numeric correctness of offsets beyond "is the
 recorded position".
 """
@@ -413,6 +414,20 @@ def run(ctx):
                           % (field, val), fn.where(b))
     elif not seeds_found:
         ctx.ok("R5", "allocator-seeds", "no constant-seeded second counter in writer::")
+    # R7 objects that must not live in an object stream (ISO 32000-1 §7.5.7): the /Encrypt dictionary (and, under encryption,
+    # individually encrypted members): the layering rule C05 R3, reported here for structural validity
+    from . import C05
+    sub = type(ctx)(ctx.prop, ctx.tier, ctx.facts, ctx.config)
+    try:
+        C05.run(sub)
+    except Exception:
+        pass
+    r3 = [v for v in sub.violations if v["rule"] == "R3"]
+    for v in r3:
+        ctx.violation("R7", "objstm:" + v["key"], v["msg"], v["where"], v["witness"])
+    if not r3:
+        ctx.ok("R7", "objstm:encrypt-dictionary-and-encrypted-members-stay-out", "C05 R3 holds (nothing is buffered for an object stream "
+               "while the document is encrypted)", wd.where())
     # R6 tokens
     readers = C09.check_readers(ctx)
     C09.check_serializers(ctx, readers)
